@@ -97,7 +97,8 @@ class Ctx:
             rc, out = sh(["go", "build", "-o", ex, "."], cwd=os.path.join(V, "tools", "extract"), env=env, timeout=600)
             if rc != 0:
                 raise Broken("translator build failed", out[-3000:])
-            rc, out = sh([ex, REPO, os.path.join(LEAN, "Emerge", "Gen")] + list(jobs), timeout=300)
+            rc, out = sh([ex, REPO, os.path.join(LEAN, "Emerge", "Gen")] + list(jobs), timeout=300,
+                         env=dict(os.environ, VERIF_SRCSNAP_JSON=os.path.join(BUILD, "srcsnap.json")))
         fails = [l for l in out.splitlines() if l.startswith("EXTRACT-FAIL")]
         if fails:
             raise Broken("translator: the source no longer has the shape the model was written for: " + "; ".join(fails), out)
@@ -151,6 +152,29 @@ class Ctx:
         if hits:
             raise Broken("forbidden construct in Lean sources", "\n".join(hits[:10]))
         self.note("proofs re-checked: %d theorems, axioms within {propext, Classical.choice, Quot.sound}" % len(self.discharged))
+        self.check_sources()
+
+    def check_sources(self):
+        """Statement snapshot: the functions, action clauses, declarations and templates that this property's model
+        transcribes (selection in tools/extract/srcsnap.go) still have the text the model was written against
+        (kernel-checked equality of the regenerated digest with the recorded one; the names of what changed come from the
+        per-function hashes)."""
+        self.extract(["srcsnap"])
+        ok, out = self.lake(["Emerge.Inst.Src." + self.pid])
+        if ok:
+            self.obligations.append("Emerge.Inst.Src.%s_sources" % self.pid)
+            self.discharged.append("Emerge.Inst.Src.%s_sources" % self.pid)
+            return
+        changed = []
+        try:
+            now = dict(map(tuple, json.load(open(os.path.join(BUILD, "srcsnap.json")))[self.pid]))
+            was = dict(map(tuple, json.load(open(os.path.join(V, "ref", "srcsnap_expected.json")))[self.pid]))
+            for k in sorted(set(now) | set(was)):
+                if now.get(k) != was.get(k):
+                    changed.append(k + (" (new)" if k not in was else " (gone)" if k not in now or now.get(k) == "missing" else ""))
+        except Exception as e:
+            changed.append("(no per-function report: %s)" % e)
+        raise Broken("the source text the model of %s transcribes has changed: %s" % (self.pid, ", ".join(changed[:12])), out[-1500:])
 
     def prepare(self, jobs, module, quick, extra_targets=("model",)):
         """Regenerates the tables, re-checks the property module, audits the axioms. A failure is recorded (the tie is
